@@ -253,6 +253,7 @@ func runC07(c *kit.Ctx) {
 	// ---- R4 ---------------------------------------------------------------
 	c.StartRule("R4", "success flag bookkeeping across retry rounds; a call that fails without being retried is remembered", 7)
 	successFlag(c, sb, batchParam)
+	successFlagLoweredOnlyWithAnError(c)
 
 	// ---- R1 ---------------------------------------------------------------
 	c.StartRule("R1", "every store into a result slot is indexed by the original position of the call it describes", 6)
@@ -407,6 +408,10 @@ func runC07(c *kit.Ctx) {
 
 	// ---- R5 ---------------------------------------------------------------
 	c.StartRule("R5", "what is stored into a slot is a real outcome; every queued call gets one", 4)
+	callsDroppedOnlyWhenTheirContextIsDone(c)
+	batchHandedOverWhole(c)
+	responseIndicesAreUnique(c)
+	callIDDiscipline(c)
 	unbufferedHandoff(c)
 	clearedCallSlotsAreSkipped(c)
 	callerBatchIsNotRewritten(c)
@@ -537,6 +542,34 @@ func runC07(c *kit.Ctx) {
 									return false
 								}
 								good = lowOK(sl.Low, nil)
+								if !good {
+									// the same by facts: on every way to the place where rpcs[low:] is taken, either
+									// <-X.Done() was received or low >= len(rpcs) (the range is empty: the store is not reached)
+									slI, _ := ssa.Value(sl).(ssa.Instruction)
+									if slI != nil {
+										good = kit.OnAllWays(slI.Block(), func(facts []kit.Fact) bool {
+											for _, f := range facts {
+												if bo, ok := f.Cond.(*ssa.BinOp); ok && bo.Op == token.EQL && f.Pol {
+													if ex, ok := bo.X.(*ssa.Extract); ok && ex.Index == 0 {
+														if sel, ok := ex.Tuple.(*ssa.Select); ok {
+															if k, ok := kit.ConstInt(bo.Y); ok && int(k) < len(sel.States) {
+																if dc, ok := kit.Root(sel.States[k].Chan).(*ssa.Call); ok && kit.CalleeName(dc) == ctxDone && sameContext(dc.Call.Value, y) {
+																	return true
+																}
+															}
+														}
+													}
+												}
+												if cmp, ok := kit.CanonCmp(f.Cond, f.Pol); ok && !cmp.Bytes && cmp.Op == token.GEQ && kit.Same(cmp.X, sl.Low) {
+													if ln := kit.LenOf(cmp.Y); ln != nil && kit.Same(ln, sl.X) {
+														return true
+													}
+												}
+											}
+											return false
+										}, 0)
+									}
+								}
 							}
 						}
 					}
@@ -604,6 +637,7 @@ func successFlag(c *kit.Ctx, sb *ssa.Function, batchParam *ssa.Parameter) {
 	}
 	// stores to allOK (in SendBatch and its literals) that lie inside the loop
 	var sticky *ssa.Alloc
+	var stickyReg ssa.Value
 	n := 0
 	var visit func(f *ssa.Function, addr ssa.Value, loopCtx bool)
 	visit = func(f *ssa.Function, addr ssa.Value, loopCtx bool) {
@@ -641,6 +675,21 @@ func successFlag(c *kit.Ctx, sb *ssa.Function, batchParam *ssa.Parameter) {
 						}
 					}
 				}
+				// allOK = !sticky where sticky lives in a register (no closure captures it)
+				if u, ok := s.Val.(*ssa.UnOp); ok && u.Op == token.NOT {
+					if _, isB := u.X.Type().Underlying().(*types.Basic); isB && f == sb {
+						if _, isLoad := u.X.(*ssa.UnOp); !isLoad {
+							stickyReg = u.X
+							e := kit.PathFrom(s, kit.PathQuery{
+								Target: func(x ssa.Instruction) bool { _, isRet := x.(*ssa.Return); return isRet },
+								Stop:   func(x ssa.Instruction) bool { return x.Block() == hdr },
+							})
+							c.Check(e == nil, f, "flag-store", s.Pos(), "allOK = !flag right before the next round (checked below: the flag is sticky across rounds)",
+								"allOK is reset to 'no fatal error seen' at a point from which SendBatch can still return without another round (e.g. when the back-off wait is cancelled): it reports success although calls still carry their retryable errors: "+c.BlockPath(e))
+							return
+						}
+					}
+				}
 				c.Unk(f, "flag-store", s.Pos(), "allOK assigned from an unrecognised expression inside the retry loop")
 			case *ssa.MakeClosure:
 				for i, b := range s.Bindings {
@@ -655,6 +704,10 @@ func successFlag(c *kit.Ctx, sb *ssa.Function, batchParam *ssa.Parameter) {
 	visit(sb, allOK, false)
 	if n == 0 {
 		c.Unk(sb, "flag-store", sb.Pos(), "allOK is never updated inside the retry loop")
+	}
+	if sticky == nil && stickyReg != nil {
+		stickyInRegister(c, sb, hdr, inLoop, stickyReg)
+		return
 	}
 	if sticky == nil {
 		c.Bad(sb, "sticky-flag", sb.Pos(), "allOK is not derived from a flag that remembers fatal errors of earlier rounds", "")
@@ -718,6 +771,12 @@ func successFlag(c *kit.Ctx, sb *ssa.Function, batchParam *ssa.Parameter) {
 // later round in which the retried calls succeed makes SendBatch report success over that error. Exempt:
 // the error of the batch context, after which SendBatch leaves its loop without resetting the flag.
 func failedCallsRemembered(c *kit.Ctx, sb *ssa.Function, sticky *ssa.Alloc, stickyStores []*ssa.Store) {
+	failedCallsRememberedK(c, sb, sticky, stickyStores, -1, nil)
+}
+
+// failedCallsRememberedK: knownK >= 0 and resetVal != nil when the sticky flag lives in a register (stickyInRegister
+// found which result of waitForCompletion feeds it, and resetVal is the value whose negation resets allOK).
+func failedCallsRememberedK(c *kit.Ctx, sb *ssa.Function, sticky *ssa.Alloc, stickyStores []*ssa.Store, knownK int, resetVal ssa.Value) {
 	p := c.P
 	wfcName := kit.M("", "*client", "waitForCompletion")
 	wfc := c.Anchor("", "client", "waitForCompletion")
@@ -725,7 +784,7 @@ func failedCallsRemembered(c *kit.Ctx, sb *ssa.Function, sticky *ssa.Alloc, stic
 		return
 	}
 	// which result feeds the sticky flag
-	k := -1
+	k := knownK
 	for _, f := range kit.WithAnon(sb) {
 		for _, call := range kit.Calls(f, wfcName) {
 			cv := call.Value()
@@ -868,7 +927,11 @@ func failedCallsRemembered(c *kit.Ctx, sb *ssa.Function, sticky *ssa.Alloc, stic
 			if !ok || u.Op != token.NOT {
 				return
 			}
-			if l, ok := u.X.(*ssa.UnOp); !ok || l.Op != token.MUL || l.X != ssa.Value(sticky) {
+			if resetVal != nil {
+				if u.X != resetVal {
+					return
+				}
+			} else if l, ok := u.X.(*ssa.UnOp); !ok || l.Op != token.MUL || l.X != ssa.Value(sticky) {
 				return
 			}
 			nReset++
@@ -960,4 +1023,120 @@ func receivedFrom(p *kit.Prog, v ssa.Value) ssa.Value {
 		}
 	}
 	return nil
+}
+
+// stickyInRegister: the flag that remembers fatal errors across the rounds of SendBatch when no closure captures it
+// (the result-collecting loop was moved into a helper that takes and returns it): it is a web of phis. Every value
+// that flows into the web is the constant true, the constant false from before the loop, or a value taken only where
+// the flag was false (flag || x) - so once true it stays true; one of those values is a result of waitForCompletion.
+func stickyInRegister(c *kit.Ctx, sb *ssa.Function, hdr *ssa.BasicBlock, inLoop func(*ssa.BasicBlock) bool, flag ssa.Value) {
+	web := map[ssa.Value]bool{}
+	type leaf struct {
+		ph  *ssa.Phi
+		i   int
+		val ssa.Value
+	}
+	var leaves []leaf
+	var grow func(v ssa.Value)
+	grow = func(v ssa.Value) {
+		v = kit.Strip(v)
+		if web[v] {
+			return
+		}
+		ph, ok := v.(*ssa.Phi)
+		if !ok {
+			return
+		}
+		web[v] = true
+		for i, e := range ph.Edges {
+			e = kit.Strip(e)
+			if _, isPhi := e.(*ssa.Phi); isPhi {
+				grow(e)
+			} else {
+				leaves = append(leaves, leaf{ph, i, e})
+			}
+		}
+	}
+	grow(flag)
+	if len(web) == 0 {
+		c.Bad(sb, "sticky-flag", sb.Pos(), "allOK is not derived from a flag that remembers fatal errors of earlier rounds", "")
+		return
+	}
+	carried := false
+	for v := range web {
+		if v.(*ssa.Phi).Block() == hdr {
+			carried = true
+		}
+	}
+	c.Check(carried, sb, "sticky-declared-outside-loop", flag.Pos(), "the remembered-fatal-error flag is carried from round to round",
+		"the flag that remembers a non-retryable error is (re)declared inside the retry loop: a fatal error of an earlier round is forgotten and SendBatch reports success although a result carries an error")
+	wfcName := kit.M("", "*client", "waitForCompletion")
+	k := -1
+	okOred := true
+	for _, lf := range leaves {
+		pred := lf.ph.Block().Preds[lf.i]
+		if val, isC := kit.BoolConst(lf.val); isC {
+			if !val && inLoop(pred) {
+				okOred = false // cleared inside the loop
+			}
+			if val && k < 0 {
+				// if x { flag = true }: x may itself be such a web (the helper's own "unretryable" result)
+				for _, f := range append(kit.FactsAt(pred), kit.EdgeFacts(pred, lf.ph.Block())...) {
+					cond, pol := kit.NormBool(f.Cond, f.Pol)
+					if pol {
+						if kk := wfcResultFeeding(cond, wfcName, 0); kk >= 0 {
+							k = kk
+						}
+					}
+				}
+			}
+			continue
+		}
+		// taken only where the flag was false
+		guarded := false
+		for _, f := range append(kit.FactsAt(pred), kit.EdgeFacts(pred, lf.ph.Block())...) {
+			cond, pol := kit.NormBool(f.Cond, f.Pol)
+			if !pol && web[kit.Strip(cond)] {
+				guarded = true
+			}
+		}
+		if !guarded {
+			okOred = false
+		}
+		if ex, ok := kit.Root(lf.val).(*ssa.Extract); ok {
+			if call, ok := ex.Tuple.(*ssa.Call); ok && kit.CalleeName(call) == wfcName {
+				k = ex.Index
+			}
+		}
+	}
+	c.Check(okOred, sb, "sticky-only-ored", flag.Pos(), "the flag is only ever assigned flag || x", "the remembered-fatal-error flag can be cleared: it is assigned something other than itself OR-ed with the latest result")
+	if k < 0 {
+		c.Unk(sb, "remembered-result", sb.Pos(), "no result of waitForCompletion flows into the flag that remembers fatal errors")
+		return
+	}
+	failedCallsRememberedK(c, sb, nil, nil, k, flag)
+	receivedResultIsExamined(c)
+}
+
+// wfcResultFeeding: v is (or is a web of phis fed by) result k of a waitForCompletion call; -1 otherwise.
+func wfcResultFeeding(v ssa.Value, wfcName string, depth int) int {
+	v = kit.Strip(v)
+	if ex, ok := kit.Root(v).(*ssa.Extract); ok {
+		if call, ok := ex.Tuple.(*ssa.Call); ok && kit.CalleeName(call) == wfcName {
+			return ex.Index
+		}
+	}
+	ph, ok := v.(*ssa.Phi)
+	if !ok || depth > 4 {
+		return -1
+	}
+	for _, e := range ph.Edges {
+		if e == ssa.Value(ph) {
+			continue
+		}
+		if k := wfcResultFeeding(e, wfcName, depth+1); k >= 0 {
+			return k
+		}
+	}
+	return -1
 }
